@@ -145,6 +145,15 @@ class TableEx(Extractor):
             return {self.index_of(k, env): self.expr(v, env) for k, v in zip(node.keys, node.values)}
         if isinstance(node, ast.JoinedStr):
             return Opaque("f-string")
+        if isinstance(node, ast.Compare):
+            # a comparison stored in a local: decided like a branch test (bool), else opaque
+            try:
+                d = self.choose(node, env)
+                if isinstance(d, bool):
+                    return d
+            except AlgError:
+                pass
+            return Opaque("comparison " + self.text(node))
         return super().expr(node, env)
 
     # -- branches ---------------------------------------------------------------------
@@ -153,6 +162,20 @@ class TableEx(Extractor):
         s = self.seed
         if t == "self.x_points[0].Z<self.o_point.Z":
             return s["lower_first"]
+        # the same decision spelled through a temporary: <something that is x_points[0]>.Z < o_point.Z
+        if isinstance(test, ast.Compare) and len(test.ops) == 1 and isinstance(test.ops[0], ast.Lt) and "".join(self.text(test.comparators[0]).split()) == "self.o_point.Z" \
+                and isinstance(test.left, ast.Attribute) and test.left.attr == "Z":
+            try:
+                who = self.expr(test.left.value, env)
+            except AlgError:
+                who = None
+            if isinstance(who, Leaf) and who.name == "x_points[0]":
+                return s["lower_first"]
+        # a decision taken earlier and kept in a local (`is_lower = ...; if is_lower:`)
+        if isinstance(test, ast.Name) and isinstance(env.get(test.id), bool):
+            return env[test.id]
+        if isinstance(test, ast.UnaryOp) and isinstance(test.op, ast.Not) and isinstance(test.operand, ast.Name) and isinstance(env.get(test.operand.id), bool):
+            return not env[test.operand.id]
         if t in ("nx_inter_sep==0", "self.user_options.nx_inter_sep==0"):
             return s["connected"]
         if t == "self.psi_increasing":
